@@ -196,6 +196,7 @@ def _run_line_cases(cases):
     """spec -> code for C02: (line, expected verdict) through load and listen."""
     loop = asyncio.new_event_loop()
     bad = []
+    gray = []
     n = 0
     try:
         for cs in cases:
@@ -206,6 +207,8 @@ def _run_line_cases(cases):
                     got = real_load(proto, line) if path == "load" else real_listen(loop, proto, line, exp)
                     if exp["k"] == "gray":
                         ok = got["k"] in ("msg", "invalid", "accepted")
+                        if got["k"] == "msg":   # TLC judges whether the value it was read as is well-formed
+                            gray.append({"kind": "decode", "proto": proto, "line": cs["line"], "res": got, "msg": {}})
                     elif exp["k"] == "invalid":
                         ok = got == {"k": "invalid"}
                     else:
@@ -214,7 +217,7 @@ def _run_line_cases(cases):
                         bad.append({"path": path, "proto": proto, "line": cs["line"], "text": line, "expected": exp, "got": got})
     finally:
         loop.close()
-    return n, bad
+    return n, bad, gray
 
 
 def _pool_map(fn, items, chunk):
@@ -349,7 +352,11 @@ def check(prop: str) -> int:
             rep.add_tlc(f"MC_codec_lines {term}", summ, {"cases_emitted": len(cases)})
             results = _pool_map(_run_line_cases, cases, 250)
         nexec = 0
-        for n, bad in results:
+        gray_cases = []
+        for res in results:
+            n, bad = res[0], res[1]
+            if len(res) > 2:
+                gray_cases.extend(res[2])
             nexec += n
             for b in bad:
                 sig = {"path": b["path"], "got": b["got"].get("k"), "cls": b["got"].get("cls", "")}
@@ -366,6 +373,7 @@ def check(prop: str) -> int:
         ctx = multiprocessing.get_context("fork")
         with ctx.Pool(16) as pool:
             rcases = [c for part in pool.map(_run_random, jobs) for c in part]
+        rcases = gray_cases + rcases
         rejected, states = _validate_random(rcases, workdir, 8 if tier == "quick" else 16)
         rep.cov["states"] += states
         rep.cov["transitions"] += states
